@@ -116,6 +116,20 @@ SIXTH = {
  "C18": "R18.10 (types spelled by the qualified writer), R18.11 (no state between extractions).",
  "C19": "R19.11 (no table keyed by a code address), R19.12 (frame debug data never dropped), R19.13 (no code generation from arbitrary nodes; D94), R19.14 (the debugger is consulted before every node), R19.15 (the ancestor frame is not assumed to belong to the session; D112).",
 }
+EIGHTH = {
+ "C01": "R01.37 (break leaves the innermost for, switch or select of its function; found D119, D120), R01.38 (range over a channel only in the form without key; D125).",
+ "C03": "R03.22 (= R12.32: conversion of a typed constant checked; D121), R03.23 (unsafe builtin names agree; D124).",
+ "C06": "R06.18 (a panic that leaves a frame is no longer in flight there; D126).",
+ "C07": "R07.22 (Symbols recomputed at each call), R07.23 (variadic test of callBin on a position of the parameter list).",
+ "C08": "R08.14 (= R04.6: a literal called in place also captures a clone).",
+ "C11": "R11.15 (the first token of a chunk is the scanner's).",
+ "C12": "R12.26-R12.34 (untyped nil, comparison operands, return constants, non-function callee, single-valued source, tagless switch conditions, break/continue targets, typed constant conversion, negative constant index, string element as destination; found D113-D118, D120-D123); the reviewed exception of R12.3 for binaryExpr was wrong and is removed.",
+ "C15": "R15.16 (descent into referenced bodies independent of the initialiser's shape).",
+ "C17": "R17.15 (callers of the constraint evaluator remember no verdict).",
+ "C18": "R18.12 (imports registered where the text using them is produced).",
+}
+for _k, _v in EIGHTH.items():
+    SIXTH[_k] = SIXTH.get(_k, "") + " Eighth round and late repairs: " + _v
 for _k, _v in SIXTH.items():
     c = CLAIMED[_k]
     CLAIMED[_k] = (c[0], c[1], c[2] + " Sixth round: " + _v, c[3], c[4])
